@@ -167,7 +167,9 @@ pub fn conc_campaigns(property: &str) -> Vec<ConcCampaign> {
             ConcCampaign { name: "conc-evict-vs-sweep", profile: EvictVsSweep, cases_quick: 400, cases_thorough: 6000, nt: |s| s.eviction_loop_delayed && s.swept_during_run,
             rule: "small cache (60-150) full of short-lived TTL keys, heavy puts needing several evictions, the eviction loop delayed 100-800 us per step while a clock thread makes the sweeper collect keys concurrently; monitor on total_weight_used() plus bound and bijection at quiescence; non-trivial = the eviction loop ran AND the sweeper collected at least one key during the run" }],
         "C05" => vec![ConcCampaign { name: "conc-quiescence", profile: General, cases_quick: 800, cases_thorough: 6000, nt: |s| s.unawaited_same_key,
-            rule: "generated concurrent programs racing the same keys; quiescence is constructed (all acknowledgements awaited, clock frozen, two sweeps waited for) and the physical snapshot must be a bijection store ids <-> charged ids with a matching total; non-trivial = two writes of one key where the second was issued before the first was acknowledged" }],
+            rule: "generated concurrent programs racing the same keys; quiescence is constructed (all acknowledgements awaited, clock frozen, two sweeps waited for) and the physical snapshot must be a bijection store ids <-> charged ids with a matching total; non-trivial = two writes of one key where the second was issued before the first was acknowledged" },
+            ConcCampaign { name: "conc-evict-vs-sweep", profile: EvictVsSweep, cases_quick: 400, cases_thorough: 6000, nt: |s| s.eviction_loop_delayed && s.swept_during_run,
+            rule: "small cache of short-lived TTL keys, heavy puts, weight-changing upserts on keys that expire, eviction loop and weight-update critical sections delayed while a clock thread drives the sweeper; bijection and total at quiescence; non-trivial = the eviction loop ran AND the sweeper collected keys during the run" }],
         "C02" => vec![ConcCampaign { name: "conc-reads", profile: General, cases_quick: 1200, cases_thorough: 10_000, nt: |s| s.overlapping_read_write && s.read_after_completed_overwrite,
             rule: "[general] generated concurrent programs, every write carries a unique token (key, thread, op); all 7 read variants; pressure in 3 of 4 configs; hash functions default/identity/constant/mod 2; history checker: value decodes to the key, was written by a write that began before the read ended and was not refused, and no overwrite/delete ordered after that write had completed before the read began; non-trivial = a read overlapped a write of its key AND a value-returning read followed a completed write of that key" },
             ConcCampaign { name: "conc-delete-window", profile: DeleteWindow, cases_quick: 300, cases_thorough: 4000, nt: |s| s.read_between_delete_and_ack && s.guard_held_during_delete,
